@@ -71,6 +71,7 @@ def floatFactOK (T : FloatTy) (f : FloatFact) : Bool :=
 /-- every layout of the date/time family consists of elements the model covers -/
 def timeFactOK (T : TimeTy) (f : TimeFact) : Bool :=
   f.collapse && !f.layouts.isEmpty && f.layouts.all (fun l => !(layoutToks l).contains .unknown)
+  && f.layouts.all (fun l => l.all (fun b => decide (0x20 < b ∧ b < 0x7F)))   -- no extractor marker ("\x00unknown-shape")
   && f.datatype == dtIRI T.dt && f.eqDatatypeSame
 
 def durationFactOK (f : DurationFact) : Bool :=
